@@ -35,6 +35,7 @@ THEOREMS = [
     "CharonV.SchedRun.registrations_only_at_epoch_start",
     "CharonV.SchedRun.registration_failure_does_not_skip_duties",
     "CharonV.SchedRun.run_preserves_at_most_once",
+    "CharonV.SchedRun.clock_step_back_no_duplicate_witness",
     "CharonV.SchedRun.slot_after_stop_witness",
     "CharonV.SchedRun.stale_slot_handed_over_late_witness",
     "CharonV.SchedRun.stop_before_loop_witness",
@@ -65,7 +66,9 @@ OBSERVATIONS = [
 
 LEVEL_TEXT = (" Run itself (Props/C15Run.lean, small-step model over goroutine actions, every interleaving): for every "
     "sequence of answers of the chain-start and sync polls (error / genesis in the future / syncing, any number of times), "
-    "returns of clock.Sleep, clock advances, runs of the ticker goroutine, outcomes of Run's select, returns of the slot handler "
+    "returns of clock.Sleep, clock moves forward and BACKWARD (Ev.adv / Ev.back: no theorem assumes a monotone clock; "
+    "slots_handled_in_order_once holds for arbitrary clock moves because slot.Next() does not read the clock - "
+    "clock_step_back_no_duplicate_witness), runs of the ticker goroutine, outcomes of Run's select, returns of the slot handler "
     "(arbitrarily slow), Stop at any point and timer / quit / beacon-node outcomes of every registration goroutine: nothing is "
     "handled, offered, triggered or submitted before waitChainStart saw a genesis time that has passed and waitBeaconSync saw "
     "'not syncing' (no_slot_before_ready); the slots Run receives are strictly increasing and are exactly the ticker's emissions "
@@ -98,6 +101,11 @@ TRUSTED_BASE = [
     "clock is clockwork's fake clock behind a wrapper that records Sleep and After with their callers (runtime.Callers) and "
     "delegates; after every op the driver waits until a stop-the-world stack dump shows every goroutine with a frame in "
     "core/scheduler/scheduler.go or the driver blocked in a channel operation or select - nothing can move until the next op",
+    "op `back <ms>`: the fake clock is stepped back (FakeClock.Advance with a negative duration: pending timers keep their "
+    "deadlines, a timer that has fired stays fired) while Run is in its loop - about 1% of the ops, mostly while a slot is on offer "
+    "and the handler is busy, two thirds of those just across the start of the current slot; a ticker that re-reads the clock "
+    "after the hand-over then emits a slot twice (schedrun:slot_handled_twice / duty_triggered_twice, seeded change "
+    "C15-slot-ticker-resync-after-send)",
     "expbackoff jitter: a backoff sleep is only ever covered completely (advance >= 1.2 x nominal + 1 ms, table in both drivers); "
     "the model wakes the sleeper on any such advance and answers `ambiguous` otherwise; durations outside [0.8, 1.2] x nominal of "
     "some retry index raise schedrun:backoff_out_of_range",
